@@ -62,6 +62,14 @@ class TransformedTargetForecaster(
         self.steps_ = None
         super(TransformedTargetForecaster, self).__init__()
 
+    def _set_cutoff(self, cutoff):
+        """Set the cutoff of the pipeline and of its fitted final forecaster."""
+        super(TransformedTargetForecaster, self)._set_cutoff(cutoff)
+        if self.steps_ is not None:
+            forecaster = self.steps_[-1][1]
+            if hasattr(forecaster, "_set_cutoff"):
+                forecaster._set_cutoff(cutoff)
+
     def _check_steps(self):
         names, estimators = zip(*self.steps)
 
